@@ -54,6 +54,35 @@ Theorem C09_objstm_bounded : forall n first l, objStreamOK n first l = true ->
 Proof. exact objstm_bounded. Qed.
 Print Assumptions C09_objstm_bounded.
 
+(* object streams: the struct built by ObjectStreamDictWithLimits stores the CONFIGURED limit and the
+   lazy full decode of the content (LazyObjectStreamObject.GetData) is bounded by exactly that value;
+   an object stream inflating beyond it fails with the limit error *)
+Theorem C09_objstm_content_bounded : forall n first l mdb o avail k,
+  inS W mdb -> 0 <= avail ->
+  objectStreamDictWithLimits n first l mdb = Ok o ->
+  osdFullDecode o avail = DOk k ->
+  0 <= k <= avail /\ k <= effLimit mdb (-1) avail /\
+  (0 < mdb < maxInt64 -> k <= mdb) /\ (mdb = 0 -> k <= DefaultMaxDecodeBytes).
+Proof. exact objstm_content_bounded. Qed.
+Print Assumptions C09_objstm_content_bounded.
+
+Theorem C09_objstm_bomb_fails : forall n first l mdb o avail,
+  0 < mdb < maxInt64 -> mdb < avail ->
+  objectStreamDictWithLimits n first l mdb = Ok o -> osdFullDecode o avail = DErrLimit.
+Proof. exact objstm_bomb_fails. Qed.
+Print Assumptions C09_objstm_bomb_fails.
+
+(* ... and in the sources (tables regenerated on every run): every ObjectStreamDict literal sets
+   MaxDecodeBytes from a configured limit (or is the write-side constructor), ObjectStreamDictWithLimits
+   does, and the only decode site that takes its limit from a struct field is GetData *)
+Theorem C09_objstm_limit_plumbed :
+  (forall c, In c osd_constructions -> site_ok osd_write_side c = true) /\
+  (exists c, In c osd_constructions /\ s_func c = "ObjectStreamDictWithLimits"%string /\ s_kind c = LConfigured) /\
+  (forall s, In s decode_sites -> is_field s = true ->
+     s_func s = "LazyObjectStreamObject.GetData"%string).
+Proof. exact osd_limit_plumbed. Qed.
+Print Assumptions C09_objstm_limit_plumbed.
+
 Theorem C09_image_bounded : forall w h l px rb, imageOK w h l = Ok (px, rb) ->
   0 < w /\ 0 < h /\ px = w * h /\ px <= MaxImagePixels l /\ rb = 4 * px /\
   rb <= MaxImageBytes l /\ rb <= maxInt64.
